@@ -124,8 +124,8 @@ Definition set_req (h : heap) (rid : nat) (r : resolve) : list rcell :=
   | None => h_reqs h
   end.
 
-(* one consumer runs: take what is there, up to the limit; end when the limit is reached, or (stream) when
-   the buffer is empty and the sender is gone *)
+(* one consumer runs: take what is there, up to the limit; end when the limit is reached, or when the buffer is
+   empty and the sender is gone *)
 Fixpoint take_n (n : nat) (l : list N) : list N * list N :=
   match n, l with
   | S n', x :: r => let (a, b) := take_n n' r in (x :: a, b)
@@ -143,8 +143,11 @@ Definition consume (c : chan) : chan * list (nat * N) :=
   if full then
     (mkChan [] false (ch_tx c) (ch_stream c) (ch_limit c) taken (ch_owner c) (ch_acc c) (ch_del c ++ got) (ch_legacy c),
      evs ++ (if is_stream then [(ch_owner c, ENDED)] else []))
-  else if is_stream && negb (ch_tx c) && negb (ch_legacy c) && match rest with [] => true | _ => false end then
-    (mkChan [] false false (ch_stream c) (ch_limit c) taken (ch_owner c) (ch_acc c) (ch_del c ++ got) (ch_legacy c), evs ++ [(ch_owner c, ENDED)])
+  else if negb (ch_tx c) && negb (ch_legacy c) && match rest with [] => true | _ => false end then
+    (* the sender is gone and nothing is buffered: a stream ends (Ready(None)); a one-shot future stays pending with
+       no waker left and its task is evicted (command/executor.rs).  Legacy futures are never woken: they stay. *)
+    (mkChan [] false false (ch_stream c) (ch_limit c) taken (ch_owner c) (ch_acc c) (ch_del c ++ got) (ch_legacy c),
+     evs ++ (if is_stream then [(ch_owner c, ENDED)] else []))
   else
     (mkChan rest true (ch_tx c) (ch_stream c) (ch_limit c) taken (ch_owner c) (ch_acc c) (ch_del c ++ got) (ch_legacy c), evs).
 
